@@ -60,6 +60,19 @@ def rule_send(ctx: Ctx):
             else:
                 rep.violation("C13.send", c.loc(), f"send() calls the result of `{stxt}(...)`", fn.key, norm_stmt(src.node))
     rep.floor("C13.send", "call sites through a looked-up/constructed event in send()", n, 2)
+    # the caller's own object is never called as is (a trigger bound to another machine would fire there)
+    for p in ctx.paths(fn, inline=None, exc_edges="none"):
+        for c in p.calls():
+            f = c.term.func
+            if isinstance(f, ast.Name) and f.id == ev:
+                rep.violation("C13.send", c.loc(), "send() calls the object it was given instead of resolving the name on *this* machine "
+                              "(a BoundEvent of another machine fires on that machine)", fn.key, norm_stmt(c.node))
+
+
+def rule_match(ctx: Ctx):
+    from . import c01
+
+    c01.rule_match(ctx, rule="C13.match")
 
 
 def rule_single(ctx: Ctx):
@@ -181,4 +194,4 @@ def rule_bind(ctx: Ctx):
     rep.floor("C13.bind", "binding sites in bind_events_to", n, 1)
 
 
-RULES = [rule_send, rule_single, rule_lists, rule_bind]
+RULES = [rule_send, rule_match, rule_single, rule_lists, rule_bind]
